@@ -26,7 +26,7 @@ def _entries(genome, groups):
     rows = []
     for k, name in enumerate(groups):
         origin = genome.index(name) if name in genome else len(genome) + (0 if "_" in name else 1)
-        for e in range(1 + (k % 2)):
+        for e in range(1 + (k % 3)):          # 1, 2 or 3 entries: with one entry per chunk a contig then spans three chunks
             s = SPAN * origin + 2 * e + 1
             rows.append((name, s, s + 1))
     return rows
